@@ -299,6 +299,29 @@ class _Twin(ast.NodeTransformer):
         node.body = pre + self.body(node.body)
         return node
 
+    def visit_Match(self, node):
+        node.subject = self.visit(node.subject)
+        for case in node.cases:
+            names = []
+            for sub in ast.walk(case.pattern):
+                nm = getattr(sub, "name", None) or getattr(sub, "rest", None)
+                if isinstance(nm, str) and nm not in names:
+                    names.append(nm)
+            if case.guard is None:
+                case.body = [self.rebind(nm, "match", case.pattern) for nm in names] + self.body(case.body)
+            else:
+                # the names are bound (and reported) when the pattern has matched, before the guard
+                reports = [ast.NamedExpr(target=ast.Name(id=nm, ctx=ast.Store()),
+                                         value=self.site(nm, "match", ast.Name(id=nm, ctx=ast.Load()), case.pattern)) for nm in names]
+                guard = self.visit(case.guard)
+                if reports:
+                    guard = ast.BoolOp(op=ast.And(), values=[
+                        ast.Subscript(value=ast.Tuple(elts=reports + [ast.Constant(True)], ctx=ast.Load()), slice=ast.Constant(-1), ctx=ast.Load()),
+                        guard])
+                case.guard = guard
+                case.body = self.body(case.body)
+        return node
+
     def visit_Try(self, node):
         node.body = self.body(node.body)
         for h in node.handlers:
